@@ -192,6 +192,47 @@ def run_rules(ctx, mod, rep, jobs=16):
             rep.bad("engine", "finalize", type(ex).__name__, "rule code crashed: %s\n%s" % (ex, traceback.format_exc()[-1500:]), kind="unrecognised")
 
 
+FIXPROP = {"D1": ["C19"], "D2": ["C04", "C20"], "D4": ["C16"], "D5": ["C12"], "D6": ["C08"], "D7": ["C14"], "D8": ["C18"]}
+
+
+def mutant_corpus(prop, rep):
+    """thorough tier: every source-level mutant of this property (selftest/, seeded/, reverted fixes) is applied to a scratch
+    copy of /repo and must make the quick check report a violation.  Results are evidence about the checker, not about
+    /repo: a mutant that is not caught is printed and counted, it is not a VIOLATION of the property."""
+    import glob
+    import subprocess
+    from concurrent.futures import ThreadPoolExecutor
+    items = []
+    for d in sorted(glob.glob(os.path.join(VERIF, "selftest", prop.lower() + "-*.patch"))):
+        items.append((os.path.basename(d)[:-6], d, False))
+    for d in sorted(glob.glob(os.path.join(VERIF, "seeded", prop + "-*", "patch.diff"))):
+        items.append(("seeded/" + os.path.basename(os.path.dirname(d)), d, False))
+    for name, props in FIXPROP.items():
+        if prop in props:
+            items.append(("revert-fix/" + name, os.path.join(VERIF, "fixes", name + ".patch"), True))
+    expected_miss = set()
+    mp = os.path.join(VERIF, "selftest", "EXPECTED_MISSES.json")
+    if os.path.exists(mp):
+        expected_miss = set(json.load(open(mp)).get(prop, []))
+
+    def run(it):
+        name, patch, rev = it
+        cmd = [os.path.join(VERIF, "tools", "mutant.py")] + (["-R"] if rev else []) + [patch, prop]
+        r = subprocess.run(cmd, cwd=VERIF, stdout=subprocess.PIPE, stderr=subprocess.STDOUT, text=True)
+        if "PATCH DOES NOT APPLY" in r.stdout:
+            return name, "skipped"
+        return name, "caught" if r.returncode == 0 else "missed"
+    with ThreadPoolExecutor(max_workers=3) as ex:
+        res = list(ex.map(run, items))
+    rep.counts["mutants_run"] = len([r for r in res if r[1] != "skipped"])
+    rep.counts["mutants_caught"] = len([r for r in res if r[1] == "caught"])
+    rep.counts["mutants_skipped"] = len([r for r in res if r[1] == "skipped"])
+    rep.counts["mutants"] = {n: ("missed (expected: clause not decided)" if st == "missed" and n in expected_miss else st) for n, st in res}
+    for n, st in res:
+        if st == "missed" and n not in expected_miss:
+            print("MUTANT-NOT-CAUGHT: %s is not reported by the %s check (self-test of the checker; not a violation of the property)" % (n, prop))
+
+
 def opts_key(opts):
     if not opts:
         return {}
